@@ -247,6 +247,19 @@ TYPE_SUBS = [
 ]
 
 
+def drop_checks_blocks(text, log):
+    """X3b (units verified for the default build only): `if CHECKS { .. }` statements are dead code there and are
+    removed, because they call crate-internal checkers that are not part of the unit"""
+    while True:
+        m = rs.mask(text)
+        mm = re.search(r"\bif\s+CHECKS\s*\{", m)
+        if not mm:
+            return text
+        c = rs.match_close(m, mm.end() - 1)
+        log.append("X3b dropped `if CHECKS {..}` block: " + " ".join(text[mm.end():c].split())[:80])
+        text = text[:mm.start()] + text[c + 1:]
+
+
 def type_subs(text, log):
     for rx, rep, what in TYPE_SUBS:
         text2, n = rx.subn(rep, text)
@@ -467,6 +480,8 @@ class Emitter:
         body = strip_cfg(body, log)
         body = ghost_macro(body, log)
         body = type_subs(body, log)
+        if d.opts.get("drop_checks") and not undecidable:
+            body = drop_checks_blocks(body, log)
         if undecidable:
             body = "{ unimplemented!() }"
             log.append("UNDECIDABLE on this tree (%s): emitted as an assumed declaration without body; handed to the bounded stand-in" % undecidable[:200])
